@@ -65,7 +65,7 @@ pub fn sim_spec() -> impl Strategy<Value = SimSpec> {
 }
 
 pub fn op(profile: Profile) -> BoxedStrategy<Op> {
-	let sig = 0u8..11;
+	let sig = 0u8..10;
 	let base = prop_oneof![
 		6 => Just(Op::Start),
 		3 => Just(Op::Stop),
